@@ -37,20 +37,21 @@ Definition result_eqb (a b : result) : bool :=
   pairs_eqb (r_created a) (r_created b).
 
 (** run the model alongside the observed trace *)
-Fixpoint agree (chain : Z) (kinds : nat -> akind) (ld : loader) (ds : list dec) (s : state) (os : list otx) : bool :=
+Fixpoint agree (chain : Z) (kinds : nat -> akind) (ld : loader) (pr : prefn) (ds : list dec) (s : state) (os : list otx) : bool :=
   match os with
   | [] => true
   | o :: r =>
-      let '(s1, x) := deliver chain recover_oracle kinds ld ds s (o_tx o) in
-      result_eqb x (o_res o) && Nlist_eqb (map s1 accts) (o_seqs o) && agree chain kinds ld ds s1 r
+      let '(s1, x) := deliver chain recover_oracle kinds ld pr ds s (o_tx o) in
+      result_eqb x (o_res o) && Nlist_eqb (map s1 accts) (o_seqs o) && agree chain kinds ld pr ds s1 r
   end.
 
 (** [mismatch] runs the model with the loader the theorems are proved for ([load_std]; Gen/C07Oblig.v checks
     that it is the one re-extracted from /repo); [mismatch_with] lets a model sweep try another loader *)
-Definition mismatch_with (ld : loader) (ds : list dec) (c : case) : bool :=
-  negb (agree (c_chain c) (c_kinds c) ld ds init (concat (snd c))).
+Definition mismatch_with (ld : loader) (pr : prefn) (ds : list dec) (c : case) : bool :=
+  negb (agree (c_chain c) (c_kinds c) ld pr ds init (concat (snd c))).
 
-Definition mismatch (ds : list dec) (c : case) : bool := mismatch_with load_std ds c.
+(** the shape of ApplyEvmMsg in /repo (pre-execution nonce: creation -> n, call -> n+1) *)
+Definition mismatch (ds : list dec) (c : case) : bool := mismatch_with load_std pre_std ds c.
 
 Definition gtrace (os : list otx) : list gstep :=
   map (fun o => (o_tx o, o_res o, state_of accts (o_seqs o))) os.
